@@ -169,7 +169,7 @@ theorem opt_step (orc : Oracle) (m : PM) (f : Frame) (rest : List Frame) (o o0 :
     (hpre : ∀ p ∈ pre, titleEq f.cfg.flags.nocase p.name o.name = false)
     (hname : o0.name = o.name) (hty : o0.ty = o.ty) (hlist : o0.flags.list = o.flags.list)
     (hd : PlainDecl o0) (hts : OptToks o ts) :
-    ∃ f' res, parseToks orc m ts = { m with frames := f' :: rest } ∧ AtItem f' ∧ f'.level = f.level ∧
+    ∃ f' res, parseToks orc m ts = { m with frames := f' :: rest } ∧ AtItem f' ∧ f'.level = f.level ∧ f'.back = f.back ∧
       f'.cfg.opts = pre ++ res :: post ∧ f'.cfg.flags = f.cfg.flags ∧ f'.cfg.info.pff = f.cfg.info.pff ∧
       res.vals = o.vals ∧ res.info = o0.info ∧ res.flags.deprecated = false ∧
       res.flags.list = o0.flags.list ∧ res.comment = o0.comment := by
@@ -188,7 +188,7 @@ theorem opt_step (orc : Oracle) (m : PM) (f : Frame) (rest : List Frame) (o o0 :
     rw [ht] at ht'; injection ht' with ht'; subst ht'
     have := C01_assign_denotes orc m f rest o.name t n1 n2 n3 ⟨[], pre.length⟩ o0 v hrun hfr hat.st hat.nd hat.cm
       hlook.1 hlook.2 hget hty4 hd.noParse hd.noValid (by rw [hlist]; exact hl) hd.notMulti (by rw [hty]; exact hconv) hd.free
-    refine ⟨_, Opt.mk o0.info { o0.flags with reset := false, modified := true } o0.subs [v] o0.comment, this, ⟨rfl, hat.cm, ?_⟩, rfl, ?_, ?_, hpff _ _ _, ?_, rfl, hd.notDep, rfl, rfl⟩
+    refine ⟨_, Opt.mk o0.info { o0.flags with reset := false, modified := true } o0.subs [v] o0.comment, this, ⟨rfl, hat.cm, ?_⟩, rfl, rfl, ?_, ?_, hpff _ _ _, ?_, rfl, hd.notDep, rfl, rfl⟩
     · intro r o' hr ho'
       simp only at hr ho'
       injection hr with hr; subst hr
@@ -205,7 +205,7 @@ theorem opt_step (orc : Oracle) (m : PM) (f : Frame) (rest : List Frame) (o o0 :
     have := C01_empty_list_item orc m f rest o.name n1 false n2 n3 n4 ⟨[], pre.length⟩ o0 hrun hfr hat.st hat.nd
       hlook.1 hlook.2 hget hty' (by rw [hlist]; exact hl) hd.free
     simp only [asgTok, Bool.false_eq_true, if_false] at this
-    refine ⟨_, (freeValue (o0.markAsg false)).1, this, ⟨rfl, hat.cm, ?_⟩, rfl, ?_, ?_, hpff _ _ _, ?_, ?_, ?_, by cases o0; rfl, by cases o0; rfl⟩
+    refine ⟨_, (freeValue (o0.markAsg false)).1, this, ⟨rfl, hat.cm, ?_⟩, rfl, rfl, ?_, ?_, hpff _ _ _, ?_, ?_, ?_, by cases o0; rfl, by cases o0; rfl⟩
     · intro r o' hr ho'
       simp only at hr ho'
       injection hr with hr; subst hr
@@ -231,7 +231,7 @@ theorem opt_step (orc : Oracle) (m : PM) (f : Frame) (rest : List Frame) (o o0 :
       intro o' l; induction l generalizing o' with
       | nil => exact ⟨rfl, rfl, rfl, rfl⟩
       | cons a as ih => simp only [Opt.appendVals]; rw [(ih _).1, (ih _).2.1, (ih _).2.2.1, (ih _).2.2.2]; cases o'; exact ⟨rfl, rfl, rfl, rfl⟩
-    refine ⟨_, (o0.markAsg false).appendVals (v0 :: vs), this, ⟨rfl, hat.cm, ?_⟩, rfl, ?_, ?_, hpff _ _ _, ?_, ?_, ?_, by rw [(hinfoVals _ _).2.2.1]; cases o0; rfl, by rw [(hinfoVals _ _).2.2.2]; cases o0; rfl⟩
+    refine ⟨_, (o0.markAsg false).appendVals (v0 :: vs), this, ⟨rfl, hat.cm, ?_⟩, rfl, rfl, ?_, ?_, hpff _ _ _, ?_, ?_, ?_, by rw [(hinfoVals _ _).2.2.1]; cases o0; rfl, by rw [(hinfoVals _ _).2.2.2]; cases o0; rfl⟩
     · intro r o' hr ho'
       simp only at hr ho'
       injection hr with hr; subst hr
@@ -268,7 +268,7 @@ theorem flat_steps (orc : Oracle) : ∀ (os os0 : List Opt) (ts : List (Tok × N
     m.status = .running → m.frames = f :: rest → AtItem f → f.cfg.opts = pre ++ os0 →
     (∀ p ∈ pre, ∀ o ∈ os, titleEq f.cfg.flags.nocase p.name o.name = false) →
     List.Pairwise (fun a b => titleEq f.cfg.flags.nocase a.name b.name = false) os →
-    ∃ f' done, parseToks orc m ts = { m with frames := f' :: rest } ∧ AtItem f' ∧ f'.level = f.level ∧
+    ∃ f' done, parseToks orc m ts = { m with frames := f' :: rest } ∧ AtItem f' ∧ f'.level = f.level ∧ f'.back = f.back ∧
       f'.cfg.opts = pre ++ done ∧ f'.cfg.flags = f.cfg.flags ∧ f'.cfg.info.pff = f.cfg.info.pff ∧
       All2 (fun r o => r.vals = o.vals) done os ∧
       All2 (fun r o0 => r.info = o0.info ∧ r.flags.list = o0.flags.list ∧ r.comment = o0.comment) done os0 := by
@@ -278,7 +278,7 @@ theorem flat_steps (orc : Oracle) : ∀ (os os0 : List Opt) (ts : List (Tok × N
     intro os0 ts m f rest pre hft hal hrun hfr hat hopts _ _
     cases hft
     cases hal
-    refine ⟨f, [], ?_, hat, rfl, by simpa using hopts, rfl, rfl, All2.nil, All2.nil⟩
+    refine ⟨f, [], ?_, hat, rfl, rfl, by simpa using hopts, rfl, rfl, All2.nil, All2.nil⟩
     obtain ⟨frames, srcs, status, diags, trace, pi, md⟩ := m
     simp only at hfr; subst hfr
     rfl
@@ -290,13 +290,13 @@ theorem flat_steps (orc : Oracle) : ∀ (os os0 : List Opt) (ts : List (Tok × N
       | cons hA hAs =>
         rename_i o0 os0'
         obtain ⟨hname, hty, hlist, hd⟩ := hA
-        obtain ⟨f1, res, e1, hat1, hlev1, hopts1, hfl1, hpf1, hv1, hi1, hdep1, hls1, hcm1⟩ :=
+        obtain ⟨f1, res, e1, hat1, hlev1, hbk1, hopts1, hfl1, hpf1, hv1, hi1, hdep1, hls1, hcm1⟩ :=
           opt_step orc m f rest o o0 pre os0' ts1 hrun hfr hat hopts (fun p hp => hpre p hp o (by simp)) hname hty hlist hd h1
         rw [parseToks_append, e1]
         have hresname : res.name = o.name := by
           have : res.name = o0.name := by simp [Opt.name, hi1]
           rw [this, hname]
-        obtain ⟨f2, done, e2, hat2, hlev2, hopts2, hfl2, hpf2, hv2, hd2⟩ :=
+        obtain ⟨f2, done, e2, hat2, hlev2, hbk2, hopts2, hfl2, hpf2, hv2, hd2⟩ :=
           ih os0' tss { m with frames := f1 :: rest } f1 rest (pre ++ [res]) h2 hAs hrun rfl hat1
             (by rw [hopts1]; simp)
             (by
@@ -309,7 +309,7 @@ theorem flat_steps (orc : Oracle) : ∀ (os os0 : List Opt) (ts : List (Tok × N
                 rw [hresname]
                 exact (List.pairwise_cons.mp hpw).1 o' ho')
             (by rw [hfl1]; exact (List.pairwise_cons.mp hpw).2)
-        refine ⟨f2, res :: done, e2, hat2, by rw [hlev2, hlev1], by rw [hopts2]; simp, by rw [hfl2, hfl1], by rw [hpf2, hpf1],
+        refine ⟨f2, res :: done, e2, hat2, by rw [hlev2, hlev1], by rw [hbk2, hbk1], by rw [hopts2]; simp, by rw [hfl2, hfl1], by rw [hpf2, hpf1],
           All2.cons hv1 hv2, All2.cons ⟨hi1, hls1, hcm1⟩ hd2⟩
 
 end Confuse
